@@ -211,6 +211,25 @@ func genC03(g *Gen, tier string, emit func(op string, args ...string)) {
 	for c := -2; c <= 300; c++ {
 		emit("encode", itoa(c), itoa(g.Intn(256)), hx(g.RandBytes(16)), hx([]byte("secret")), showAVPs(g.smallAVPs()))
 	}
+	// Encode against the formula (not only the predicates) with long secrets and packets up to the limit,
+	// for every hashed code; totals beyond the limit must be refused by Encode as well
+	for _, code := range []int{1, 2, 3, 4, 5, 11, 12, 40, 41, 42, 43, 44, 45} {
+		for _, sl := range []int{65, 127, 128, 129, 253, 1000} {
+			for _, total := range []int{300, 4000, 4095, 4096, 4097, 4200} {
+				var as []avp
+				left := total - 20
+				for left >= 2 {
+					n := 255
+					if left < 255 {
+						n = left
+					}
+					as = append(as, avp{g.Pick(1, 18, 26, 79), g.RandBytes(n - 2)})
+					left -= n
+				}
+				emit("encode", itoa(code), itoa(g.Intn(256)), hx(g.RandBytes(16)), hx(g.RandBytes(sl)), showAVPs(as))
+			}
+		}
+	}
 	for i := 0; i < n; i++ {
 		switch g.Intn(10) {
 		case 0, 1:
